@@ -41,20 +41,20 @@ example : isIdentifier "name2".toList = true ∧ isIdentifier "two words".toList
 
 /-- Every text, written by `write_string_literal` and followed by a delimiter (or nothing), is lexed back as that
 text: bare identifiers by the identifier rule, everything else through the quoted, escaped form. -/
-theorem C09_text_literal_roundtrip (s : List Char) (rest : List Char) (hd : Delim rest) :
+theorem C09_text_literal_roundtrip (s : List Char) (rest : List Char) (hd : TokEnd rest) :
     lexPrim (stringLiteral s ++ rest) = some (.ok (.text s, rest)) := lexPrim_text s hd
 
-example : Delim ",x".toList := by intro c hc; simp at hc; simp [← hc]
+example : TokEnd ",x".toList := by intro c hc; simp at hc; subst hc; decide
 
 /-- Every integer, whatever its Rust kind, is printed in decimal and lexed back with the kind the parser assigns. -/
-theorem C09_integer_roundtrip (n : Int) (rest : List Char) (hd : Delim rest) :
+theorem C09_integer_roundtrip (n : Int) (rest : List Char) (hd : TokEnd rest) :
     lexPrim (intChars n ++ rest) = some (.ok (.int (classify n) n, rest)) := lexPrim_int n hd
 
 example : classify 2147483648 = .i64 ∧ classify (-9223372036854775808) = .big ∧ classify 18446744073709551615 = .u64 := by
   decide
 
 /-- Every byte string is read back from its `%base64` form. -/
-theorem C09_blob_roundtrip (bs : List Nat) (hb : ∀ b ∈ bs, b < 256) (rest : List Char) (hd : Delim rest) :
+theorem C09_blob_roundtrip (bs : List Nat) (hb : ∀ b ∈ bs, b < 256) (rest : List Char) (hd : TokEnd rest) :
     lexPrim ('%' :: (b64Encode bs ++ rest)) = some (.ok (.data bs, rest)) := lexPrim_data bs hb hd
 
 example : b64Encode [1, 2, 255] = "AQL/".toList := by decide
@@ -143,7 +143,7 @@ def C09_parse_print_std_pretty_open : Prop :=
 as the same decimal. -/
 def C09_float_roundtrip_open : Prop :=
   ∀ (neg : Bool) (m : Nat) (e : Int), (m % 10 ≠ 0 ∨ (m = 0 ∧ e = 0)) →
-    ∀ rest, Delim rest →
+    ∀ rest, TokEnd rest →
       lexPrim (ryuChars (.fin neg m e) ++ rest) = some (.ok (.float (.fin neg m e), rest)) ∧
       lexPrim (expChars (.fin neg m e) ++ rest) = some (.ok (.float (.fin neg m e), rest))
 
